@@ -263,8 +263,8 @@ example : decryptSubject toyHash toyAead [1] (.encrypted ⟨[], [2], [], [4]⟩ 
 changed nonce or changed additional data fails; a changed ciphertext or tag fails, unless
 the new pair is the key holder's own sealing of another plaintext -/
 theorem decrypt_encrypted_tampered (L : AeadLaws A) (k n : Bytes) (e r : Env) (hi : Inv h e)
-    (hH : ∀ b, (h.H b).Valid) (hr : encryptSubject h A k n e = .ok r) :
-    let m := encryptWithDigest A k n (encode e.subject) e.subject.digest
+    (hH : ∀ b, (h.H b).Valid) (hr : encryptSubject h A k n e = .ok r) (m : EncMsg)
+    (hm : m = encryptWithDigest A k n (encode e.subject) e.subject.digest) :
     r.subject = .encrypted m e.subject.digest ∧
     (∀ (r' : Env) (c' t' : Bytes) (d' : Digest),
       r'.subject = .encrypted { m with ciphertext := c', auth := t' } d' →
@@ -275,14 +275,14 @@ theorem decrypt_encrypted_tampered (L : AeadLaws A) (k n : Bytes) (e r : Env) (h
       n' ≠ n → decryptSubject h A k r' = .err "dep:Decrypt_failed") ∧
     (∀ (r' : Env) (a' : Bytes) (d' : Digest), r'.subject = .encrypted { m with aad := a' } d' →
       a' ≠ m.aad → decryptSubject h A k r' = .err "dep:Decrypt_failed") := by
-  intro m
+  subst hm
   refine ⟨(encryptSubject_shape h A k n e r hi hH hr).1, ?_, ?_, ?_⟩
   · intro r' c' t' d' hs hne
-    exact decrypt_tampered_ciphertext_or_tag h A L k n (encode e.subject) m.aad c' t' r' d' hs hne
+    exact decrypt_tampered_ciphertext_or_tag h A L k n (encode e.subject) _ c' t' r' d' hs hne
   · intro r' n' d' hs hn
-    exact decrypt_tampered_nonce h A L k n (encode e.subject) m.aad n' r' d' hs hn
+    exact decrypt_tampered_nonce h A L k n (encode e.subject) _ n' r' d' hs hn
   · intro r' a' d' hs ha
-    exact decrypt_tampered_aad h A L k n (encode e.subject) m.aad a' r' d' hs ha
+    exact decrypt_tampered_aad h A L k n (encode e.subject) _ a' r' d' hs ha
 
 example : ∃ r, encryptSubject toyHash toyAead [1] [2] nd = .ok r ∧
     ∀ (r' : Env) (n' : Bytes) (d' : Digest),
@@ -290,7 +290,7 @@ example : ∃ r, encryptSubject toyHash toyAead [1] [2] nd = .ok r ∧
         with nonce := n' } d' → n' ≠ [2] →
       decryptSubject toyHash toyAead [1] r' = .err "dep:Decrypt_failed" := by
   obtain ⟨r, hr⟩ := (encryptSubject_ok_iff toyHash toyAead [1] [2] nd nd_inv toyHash_valid).mpr ⟨rfl, rfl⟩
-  exact ⟨r, hr, (decrypt_encrypted_tampered _ _ toyAead_laws _ _ _ _ nd_inv toyHash_valid hr).2.2.1⟩
+  exact ⟨r, hr, (decrypt_encrypted_tampered _ _ toyAead_laws _ _ _ _ nd_inv toyHash_valid hr _ rfl).2.2.1⟩
 
 /-! ### misdeclared content -/
 
